@@ -70,6 +70,23 @@ void configure(Opt& opt, const Problem& p, unsigned flagbits, double rho, int K)
 }
 
 // decision vector: initial guess perturbed in every slot, durations kept >= 0.05 s
+
+// initialise through either overload: a third of the cases hand over knot times (the start time is then the first of them and
+// the reference durations are the differences the library forms)
+template <class Opt>
+bool init_state(Tape& t, Ctx& ctx, Opt& opt, Problem& p) {
+  if (t.chance(1, 3)) {
+    std::vector<double> tp(p.T.size() + 1);
+    tp[0] = p.t0;
+    for (size_t i = 0; i < p.T.size(); ++i) tp[i + 1] = tp[i] + p.T[i];
+    for (size_t i = 0; i < p.T.size(); ++i) p.T[i] = tp[i + 1] - tp[i];
+    ctx.label("init:time-points");
+    return opt.setInitState(tp, p.P, p.bc);
+  }
+  ctx.label("init:durations");
+  return opt.setInitState(p.T, p.P, p.t0, p.bc);
+}
+
 template <class Opt, class TM>
 Eigen::VectorXd gen_x(Tape& t, const Opt& opt, const TM& tm, int N) {
   Eigen::VectorXd x0 = opt.generateInitialGuess();
@@ -171,11 +188,11 @@ void c07(Tape& t, Ctx& ctx) {
   Problem p = gen_problem(t, N, &tsc);
   if (mp == 0) {
     OptD opt; QuadInvTimeMap tm;
-    VCHECK(ctx, opt.setInitState(p.T, p.P, p.t0, p.bc), "init-rejected", "valid problem rejected");
+    VCHECK(ctx, init_state(t, ctx, opt, p), "init-rejected", "valid problem rejected");
     c07_run(t, ctx, opt, tm, p, flagbits, "QuadInv+Identity");
   } else if (mp == 1) {
     OptI opt; IdentityTimeMap tm;
-    VCHECK(ctx, opt.setInitState(p.T, p.P, p.t0, p.bc), "init-rejected", "valid problem rejected");
+    VCHECK(ctx, init_state(t, ctx, opt, p), "init-rejected", "valid problem rejected");
     c07_run(t, ctx, opt, tm, p, flagbits, "IdentityTime+Identity");
   } else {
     int tk = t.range(0, 2);
@@ -184,7 +201,7 @@ void c07(Tape& t, Ctx& ctx) {
     OptU opt;
     opt.setTimeMap(&tm); opt.setSpatialMap(&sm);
     for (int i = 0; i <= N; ++i) { Eigen::VectorXd v = p.P.row(i).transpose(); Eigen::VectorXd w = sm.project(v, i); for (int d = 0; d < D; ++d) p.P(i, d) = w(d); }
-    VCHECK(ctx, opt.setInitState(p.T, p.P, p.t0, p.bc), "init-rejected", "valid problem rejected");
+    VCHECK(ctx, init_state(t, ctx, opt, p), "init-rejected", "valid problem rejected");
     std::string mn = std::string("UserTime(kind ") + std::to_string(tk) + ")+UserSpatial";
     bool fewer = false; for (int i = 0; i <= N; ++i) if (sm.getUnconstrainedDim(i) < D) fewer = true;
     if (fewer) ctx.label("user-map:fewer-unconstrained-than-physical");
@@ -337,14 +354,14 @@ void c07x(Tape& t, Ctx& ctx) {
   int N = t.pickw({2, 2, 3, 2, 1, 1}) + 1;
   double tsc;
   Problem p = gen_problem(t, N, &tsc);
-  if (mp == 0) { OptI opt; IdentityTimeMap tm; VCHECK(ctx, opt.setInitState(p.T, p.P, p.t0, p.bc), "init-rejected", "valid problem rejected"); c07x_run(t, ctx, opt, tm, (const UserSpatialMap<D>*)nullptr, p, "IdentityTime+Identity"); }
-  else if (mp == 1) { OptD opt; QuadInvTimeMap tm; VCHECK(ctx, opt.setInitState(p.T, p.P, p.t0, p.bc), "init-rejected", "valid problem rejected"); c07x_run(t, ctx, opt, tm, (const UserSpatialMap<D>*)nullptr, p, "QuadInv+Identity"); }
+  if (mp == 0) { OptI opt; IdentityTimeMap tm; VCHECK(ctx, init_state(t, ctx, opt, p), "init-rejected", "valid problem rejected"); c07x_run(t, ctx, opt, tm, (const UserSpatialMap<D>*)nullptr, p, "IdentityTime+Identity"); }
+  else if (mp == 1) { OptD opt; QuadInvTimeMap tm; VCHECK(ctx, init_state(t, ctx, opt, p), "init-rejected", "valid problem rejected"); c07x_run(t, ctx, opt, tm, (const UserSpatialMap<D>*)nullptr, p, "QuadInv+Identity"); }
   else {
     UserTimeMap tm(t.range(0, 2), (2 + t.range(0, 6)) / 4.0);
     UserSpatialMap<D> sm(1 + t.range(0, 1000), 1 + t.range(0, 30));
     OptU opt; opt.setTimeMap(&tm); opt.setSpatialMap(&sm);
     for (int i = 0; i <= N; ++i) { Eigen::VectorXd v = p.P.row(i).transpose(); Eigen::VectorXd w = sm.project(v, i); for (int d = 0; d < D; ++d) p.P(i, d) = w(d); }
-    VCHECK(ctx, opt.setInitState(p.T, p.P, p.t0, p.bc), "init-rejected", "valid problem rejected");
+    VCHECK(ctx, init_state(t, ctx, opt, p), "init-rejected", "valid problem rejected");
     c07x_run(t, ctx, opt, tm, &sm, p, "UserTime+UserSpatial");
   }
 }
@@ -363,6 +380,14 @@ void c08_run(Tape& t, Ctx& ctx, Opt& opt, const TM& tm, const SM* sm, const Prob
   double rho_eff = rho * std::pow(sig, 2 * S - 1) / 64.0;
   configure(opt, p, flagbits, rho_eff, K);
   Eigen::VectorXd x = gen_x(t, opt, tm, N);
+  // "every decision vector": one or all time variables decode to a duration far below what a reference problem may contain
+  if (t.chance(1, 8)) {
+    static const double kTiny[] = {4e-4, 1e-4, 2e-5};
+    double Tt = kTiny[t.range(0, 2)];
+    int which = t.range(0, N);
+    for (int i = 0; i < N; ++i) if (which == N || which == i) x(i) = tm.toTau(Tt);
+    ctx.label("x:tiny-duration");
+  }
   ctx.label(std::string("maps:") + mapname);
   ctx.label(rho == 0 ? "rho=0" : "rho>0");
   ctx.nontrivial = K >= 2 && N >= 2 && p.t0 != 0;
@@ -458,8 +483,11 @@ void c08_run(Tape& t, Ctx& ctx, Opt& opt, const TM& tm, const SM* sm, const Prob
   ld refabs = fabsl(tcv) + fabsl(wcv) + integral_abs + (ld)rho_eff * re.abssum;
   ld err = fabsl((ld)cost - ref);
   if (refabs > 0) ctx.maxi(std::string("cost_err_") + oname(), (double)(err / refabs));
-  VCHECK(ctx, err <= 1e-9L * refabs + 1e-280L, "cost-decomposition",
-         who << ": returned cost " << g17(cost) << " but time cost " << lg(tcv) << " + waypoint cost " << lg(wcv) << " + trapezoid integral " << lg(integral) << " + weight*energy " << lg((ld)rho_eff * re.E) << " = " << lg(ref));
+  if (!std::isfinite((double)refabs)) ctx.label("cost-overflow(skipped)");
+  else {
+    VCHECK(ctx, err <= 1e-9L * refabs + 1e-280L, "cost-decomposition",
+           who << ": returned cost " << g17(cost) << " but time cost " << lg(tcv) << " + waypoint cost " << lg(wcv) << " + trapezoid integral " << lg(integral) << " + weight*energy " << lg((ld)rho_eff * re.E) << " = " << lg(ref));
+  }
   // ---- two-cost overload = three-cost overload with a zero waypoint cost, bitwise
   {
     Costs zero_w = costs; zero_w.wc = WaypointCostP<D>();
@@ -492,14 +520,14 @@ void c08(Tape& t, Ctx& ctx) {
   int N = t.pickw({2, 2, 3, 2, 1, 1}) + 1;
   double tsc;
   Problem p = gen_problem(t, N, &tsc);
-  if (mp == 0) { OptD opt; QuadInvTimeMap tm; VCHECK(ctx, opt.setInitState(p.T, p.P, p.t0, p.bc), "init-rejected", "valid problem rejected"); c08_run(t, ctx, opt, tm, (const UserSpatialMap<D>*)nullptr, p, "QuadInv+Identity"); }
-  else if (mp == 1) { OptI opt; IdentityTimeMap tm; VCHECK(ctx, opt.setInitState(p.T, p.P, p.t0, p.bc), "init-rejected", "valid problem rejected"); c08_run(t, ctx, opt, tm, (const UserSpatialMap<D>*)nullptr, p, "IdentityTime+Identity"); }
+  if (mp == 0) { OptD opt; QuadInvTimeMap tm; VCHECK(ctx, init_state(t, ctx, opt, p), "init-rejected", "valid problem rejected"); c08_run(t, ctx, opt, tm, (const UserSpatialMap<D>*)nullptr, p, "QuadInv+Identity"); }
+  else if (mp == 1) { OptI opt; IdentityTimeMap tm; VCHECK(ctx, init_state(t, ctx, opt, p), "init-rejected", "valid problem rejected"); c08_run(t, ctx, opt, tm, (const UserSpatialMap<D>*)nullptr, p, "IdentityTime+Identity"); }
   else {
     UserTimeMap tm(t.range(0, 2), (2 + t.range(0, 6)) / 4.0);
     UserSpatialMap<D> sm(1 + t.range(0, 1000), 1 + t.range(0, 30));
     OptU opt; opt.setTimeMap(&tm); opt.setSpatialMap(&sm);
     for (int i = 0; i <= N; ++i) { Eigen::VectorXd v = p.P.row(i).transpose(); Eigen::VectorXd w = sm.project(v, i); for (int d = 0; d < D; ++d) p.P(i, d) = w(d); }
-    VCHECK(ctx, opt.setInitState(p.T, p.P, p.t0, p.bc), "init-rejected", "valid problem rejected");
+    VCHECK(ctx, init_state(t, ctx, opt, p), "init-rejected", "valid problem rejected");
     c08_run(t, ctx, opt, tm, &sm, p, "UserTime+UserSpatial");
   }
 }
@@ -633,13 +661,13 @@ void c19(Tape& t, Ctx& ctx) {
   int N = t.pickw({2, 2, 3, 2, 1}) + 1;
   double tsc;
   Problem p = gen_problem(t, N, &tsc);
-  if (mp == 0) { OptD opt; QuadInvTimeMap tm; VCHECK(ctx, opt.setInitState(p.T, p.P, p.t0, p.bc), "init-rejected", "valid problem rejected"); c19_run(t, ctx, opt, tm, p, "QuadInv+Identity"); }
+  if (mp == 0) { OptD opt; QuadInvTimeMap tm; VCHECK(ctx, init_state(t, ctx, opt, p), "init-rejected", "valid problem rejected"); c19_run(t, ctx, opt, tm, p, "QuadInv+Identity"); }
   else {
     UserTimeMap tm(t.range(0, 2), (2 + t.range(0, 6)) / 4.0);
     UserSpatialMap<D> sm(1 + t.range(0, 1000), 1 + t.range(0, 30));
     OptU opt; opt.setTimeMap(&tm); opt.setSpatialMap(&sm);
     for (int i = 0; i <= N; ++i) { Eigen::VectorXd v = p.P.row(i).transpose(); Eigen::VectorXd w = sm.project(v, i); for (int d = 0; d < D; ++d) p.P(i, d) = w(d); }
-    VCHECK(ctx, opt.setInitState(p.T, p.P, p.t0, p.bc), "init-rejected", "valid problem rejected");
+    VCHECK(ctx, init_state(t, ctx, opt, p), "init-rejected", "valid problem rejected");
     c19_run(t, ctx, opt, tm, p, "UserTime+UserSpatial");
   }
 }
